@@ -328,3 +328,30 @@ func knownDifferential(c *core.Case, query string, series []core.Series, start, 
 	kc.Start, kc.End, kc.Step = start, end, step
 	return kf.Match(&kc)
 }
+
+// equalOrTie is oracle.Equal, except that a difference between two successful
+// results of a query containing topk/bottomk is not judged when the data holds a
+// tie at the cut (the choice among tied series depends on the order in which the
+// shards deliver their samples).
+func equalOrTie(c *core.Case, expr parser.Expr, st *memstore.Store, a, b *oracle.Res, tol oracle.Tol) string {
+	d := oracle.Equal(a, b, tol)
+	if d == "" || a.Err != nil || b.Err != nil || expr == nil {
+		return d
+	}
+	hasTopk := false
+	parser.Inspect(expr, func(n parser.Node, _ []parser.Node) error {
+		if agg, ok := n.(*parser.AggregateExpr); ok && (agg.Op == parser.TOPK || agg.Op == parser.BOTTOMK) {
+			hasTopk = true
+		}
+		return nil
+	})
+	if hasTopk && TopkAmbiguous(c, expr, st) {
+		return ""
+	}
+	if hasTopk {
+		if id := knownDifferential(c, c.Query, c.Series, c.Start, c.End, c.Step); id != "" {
+			return ""
+		}
+	}
+	return d
+}
